@@ -6,6 +6,7 @@ package book
 
 import (
 	"bufio"
+	"context"
 	"encoding/json"
 	"fmt"
 	"math"
@@ -562,6 +563,7 @@ type res08 struct {
 	NPlans int     `json:"nplans"`
 	Before *nodeRes `json:"before,omitempty"` // Before/After reported by the cpumem plugin, where observable
 	After  *nodeRes `json:"after,omitempty"`
+	YCount int      `json:"ycount"` // usage of the counting plugin y0 (= number of live workloads it knows)
 }
 
 type case08 struct {
@@ -569,6 +571,7 @@ type case08 struct {
 	Prop   string  `json:"prop"`
 	Cap    nodeRes `json:"cap"`
 	Ops    []op08  `json:"ops"`
+	Order  int     `json:"order"` // configured plugin order: 0 cpumem,x0,y0  1 x0,cpumem,y0  2 y0,x0,cpumem  3 x0,y0,cpumem
 	SetErr string  `json:"seterr"`
 	Impl   []res08 `json:"impl"`
 }
@@ -687,8 +690,13 @@ func (f *fixture) runC08(c *case08, next func(live []live08, hist []op08, lastOK
 		return
 	}
 	defer f.cm.RemoveNode(f.ctx, name) //nolint
-	f.x0.setCap(name, &plugintypes.NodeDeployCapacity{Capacity: math.MaxInt, Weight: 1})
-	defer f.x0.setCap(name, nil)
+	mgr := f.mgrs[c.Order%len(f.mgrs)]
+	for _, p := range []*scripted{f.x0, f.y0} {
+		p.setCap(name, &plugintypes.NodeDeployCapacity{Capacity: math.MaxInt, Weight: 1})
+		defer p.setCap(name, nil)
+	}
+	f.y0.setCount(name, 0, false)
+	defer f.y0.setCount(name, 0, true)
 	defer f.x0.setFail(false)
 	live := []live08{}
 	var undo *struct {
@@ -715,7 +723,7 @@ func (f *fixture) runC08(c *case08, next func(live []live08, hist []op08, lastOK
 			var ws []resourcetypes.Resources
 			kind, _ = hx.Guard(20*time.Second, func() {
 				err = retry(func() (e error) {
-					ws, _, e = f.mgr2.Alloc(f.ctx, name, op.K, resourcetypes.Resources{"cpumem": op.Req.raw()})
+					ws, _, e = mgr.Alloc(f.ctx, name, op.K, resourcetypes.Resources{"cpumem": op.Req.raw()})
 					return
 				})
 			})
@@ -750,13 +758,18 @@ func (f *fixture) runC08(c *case08, next func(live []live08, hist []op08, lastOK
 						}
 						resp, e := f.cm.SetNodeResourceUsage(f.ctx, name, nil, nil, raws, true, false)
 						if e == nil {
+							yraws := []plugintypes.WorkloadResource{}
+							for _, p := range pick {
+								yraws = append(yraws, p["y0"])
+							}
+							f.y0.SetNodeResourceUsage(f.ctx, name, nil, nil, yraws, true, false) //nolint
 							b, a := nodeResOf(resp.Before), nodeResOf(resp.After)
 							res.Before, res.After = &b, &a
 						}
 						return e
 					}
 					// what RollbackAlloc does; cobalt hands back cpumem's Before/After when another plugin failed
-					before, after, e := f.mgr2.SetNodeResourceUsage(f.ctx, name, nil, nil, pick, true, false)
+					before, after, e := mgr.SetNodeResourceUsage(f.ctx, name, nil, nil, pick, true, false)
 					if e != nil && before["cpumem"] != nil && after["cpumem"] != nil {
 						b, a := nodeResOf(before["cpumem"]), nodeResOf(after["cpumem"])
 						res.Before, res.After = &b, &a
@@ -773,10 +786,10 @@ func (f *fixture) runC08(c *case08, next func(live []live08, hist []op08, lastOK
 			}
 			undo = nil
 		case "readd":
-			raw := resourcetypes.Resources{"cpumem": op.W.raw()}
+			raw := resourcetypes.Resources{"cpumem": op.W.raw(), "y0": resourcetypes.RawParams{"n": 1}}
 			kind, _ = hx.Guard(60*time.Second, func() {
 				err = retry(func() error {
-					_, _, e := f.mgr2.SetNodeResourceUsage(f.ctx, name, nil, nil, []resourcetypes.Resources{raw}, true, true)
+					_, _, e := mgr.SetNodeResourceUsage(f.ctx, name, nil, nil, []resourcetypes.Resources{raw}, true, true)
 					return e
 				})
 			})
@@ -793,7 +806,7 @@ func (f *fixture) runC08(c *case08, next func(live []live08, hist []op08, lastOK
 			var delta, nw resourcetypes.Resources
 			kind, _ = hx.Guard(20*time.Second, func() {
 				err = retry(func() (e error) {
-					_, delta, nw, e = f.mgr2.Realloc(f.ctx, name, live[op.I].raw, resourcetypes.Resources{"cpumem": op.Req.raw()})
+					_, delta, nw, e = mgr.Realloc(f.ctx, name, live[op.I].raw, resourcetypes.Resources{"cpumem": op.Req.raw()})
 					return
 				})
 			})
@@ -815,7 +828,7 @@ func (f *fixture) runC08(c *case08, next func(live []live08, hist []op08, lastOK
 			}
 			u := undo
 			undo = nil
-			kind, _ = hx.Guard(60*time.Second, func() { err = retry(func() error { return f.mgr2.RollbackRealloc(f.ctx, name, u.delta) }) })
+			kind, _ = hx.Guard(60*time.Second, func() { err = retry(func() error { return mgr.RollbackRealloc(f.ctx, name, u.delta) }) })
 			if kind == "" && err == nil {
 				live[u.idx] = u.origin
 			}
@@ -840,6 +853,7 @@ func (f *fixture) runC08(c *case08, next func(live []live08, hist []op08, lastOK
 		}
 		res.Usage = nodeResOf(info.Usage)
 		res.Diffs = len(info.Diffs)
+		res.YCount = f.y0.getCount(name)
 		c.Ops = append(c.Ops, op)
 		c.Impl = append(c.Impl, res)
 	}
@@ -871,18 +885,28 @@ type run09 struct {
 	Nodes map[string]out09 `json:"nodes"`
 	Total int              `json:"total"`
 	Order []int            `json:"order,omitempty"`
+	Err   string           `json:"err,omitempty"`
 }
 
 type impl09 struct {
-	Runs  []run09 `json:"runs"`
-	Folds []run09 `json:"folds"`
+	Runs   []run09 `json:"runs"`
+	Folds  []run09 `json:"folds"`
+	Cancel []run09 `json:"cancel,omitempty"` // runs whose caller context was cancelled / expired between two answers
+}
+
+// sched09: a schedule of the plugins' answers and of the caller giving up
+type sched09 struct {
+	DelayMS  []int `json:"delay_ms"`  // per plugin: when it answers
+	CancelMS int   `json:"cancel_ms"` // when the caller's context ends
+	Deadline bool  `json:"deadline"`  // context deadline instead of an explicit cancel
 }
 
 type case09 struct {
-	ID      string  `json:"id"`
-	Prop    string  `json:"prop"`
-	Answers []ans09 `json:"answers"`
-	Impl    *impl09 `json:"impl"`
+	ID      string   `json:"id"`
+	Prop    string   `json:"prop"`
+	Answers []ans09  `json:"answers"`
+	Sched   *sched09 `json:"sched,omitempty"`
+	Impl    *impl09  `json:"impl"`
 }
 
 func genC09(r *hx.Rng, id string) *case09 {
@@ -919,6 +943,18 @@ func genC09(r *hx.Rng, id string) *case09 {
 			a.Nodes, a.Nil = map[string]cap09{}, true
 		}
 		c.Answers = append(c.Answers, a)
+	}
+	if np > 1 && r.Chance(30) { // the caller gives up between two answers
+		sc := &sched09{CancelMS: 4, Deadline: r.Chance(50)}
+		slow := r.Intn(np)
+		for p := 0; p < np; p++ {
+			d := 0
+			if p == slow || r.Chance(25) {
+				d = 14
+			}
+			sc.DelayMS = append(sc.DelayMS, d)
+		}
+		c.Sched = sc
 	}
 	return c
 }
@@ -983,6 +1019,32 @@ func (f *fixture) runC09(c *case09) {
 		if !seen[string(b)] {
 			seen[string(b)] = true
 			im.Runs = append(im.Runs, run)
+		}
+	}
+	if c.Sched != nil {
+		for i, p := range ps {
+			if i < len(c.Sched.DelayMS) {
+				p.delay = time.Duration(c.Sched.DelayMS[i]) * time.Millisecond
+			}
+		}
+		var ctx context.Context
+		var cancel context.CancelFunc
+		if c.Sched.Deadline {
+			ctx, cancel = context.WithTimeout(f.ctx, time.Duration(c.Sched.CancelMS)*time.Millisecond)
+		} else {
+			ctx, cancel = context.WithCancel(f.ctx)
+			go func() { time.Sleep(time.Duration(c.Sched.CancelMS) * time.Millisecond); cancel() }()
+		}
+		m, total, err := mgr.GetNodesDeployCapacity(ctx, nodenames, resourcetypes.Resources{})
+		cancel()
+		run := run09{Nodes: out09Of(m), Total: total}
+		if err != nil {
+			run = run09{Nodes: map[string]out09{}, Err: "error"}
+		}
+		im.Cancel = append(im.Cancel, run)
+		time.Sleep(15 * time.Millisecond) // let a slow plugin abandoned by the call finish
+		for _, p := range ps {
+			p.delay = 0
 		}
 	}
 	// explicit orders through the hook (mergeCapacity only; raw weighted sums)
@@ -1324,7 +1386,7 @@ func TestGen(t *testing.T) {
 			out.Emit(c)
 		}
 		for i := 0; i < n; i++ {
-			c := &case08{ID: nextID(), Prop: "C08", Cap: genCapacity(r, r.Chance(50))}
+			c := &case08{ID: nextID(), Prop: "C08", Cap: genCapacity(r, r.Chance(50)), Order: r.Intn(4)}
 			if r.Chance(40) { // roomy node so that long histories stay feasible
 				c.Cap.Mem = 64 << 30
 				if len(c.Cap.NM) > 0 {
